@@ -17,6 +17,8 @@ mod c09;
 mod c10;
 mod proc;
 mod c11;
+mod c13;
+mod execchild;
 mod c16;
 mod c17;
 mod c19;
@@ -38,6 +40,7 @@ fn property(id: &str) -> Option<Property> {
         "C09" => c09::property(),
         "C10" => c10::property(),
         "C11" => c11::property(),
+        "C13" => c13::property(),
         "C16" => c16::property(),
         "C17" => c17::property(),
         "C19" => c19::property(),
@@ -53,6 +56,9 @@ fn usage() -> ! {
 fn main() {
     install_panic_hook();
     let args: Vec<String> = std::env::args().collect();
+    if args.len() == 3 && args[1] == "exec-case" {
+        std::process::exit(execchild::child_main(&args[2]));
+    }
     if args.len() < 4 {
         usage();
     }
